@@ -6,6 +6,7 @@ CONSTANTS
   Ops = {"TRead","Restart"}
   Depth = 8
   Recheck = TRUE
+  DropInFlight = TRUE
   MaxSeq = 99
   MaxRestart = 99
   Sample = TRUE
